@@ -229,6 +229,29 @@ Proof.
     cbn [filter]. destruct (is_addcoll r); cbn [length] in *; lia.
 Qed.
 
+(* a kept slot has been re-run: k_keep is set only together with a CommandRunWorker of the tick's own step *)
+Lemma one_result_keep P step tev dc now a r a' :
+  one_result P step tev dc now a r = Ok a' ->
+  (k_keep a = true -> runs_of step (k_cmds a) <> []) -> (k_keep a' = true -> runs_of step (k_cmds a') <> []).
+Proof.
+  intros H Hk. unfold one_result in H.
+  break_match H; try discriminate; inversion H; subst; clear H; cbn [k_cmds k_keep];
+    rewrite ?runs_of_app; cbn [runs_of app]; rewrite ?Z.eqb_refl;
+    try (intros K E; apply app_eq_nil in E; destruct E as [E _]; exact (Hk K E));
+    try (intros K E; apply app_eq_nil in E; destruct E as [_ E]; discriminate E);
+    try (intros K E; exact (Hk K E)).
+Qed.
+
+Lemma results_loop_keep P step tev dc now : forall rs a a',
+  results_loop P step tev dc now a rs = Ok a' ->
+  (k_keep a = true -> runs_of step (k_cmds a) <> []) -> (k_keep a' = true -> runs_of step (k_cmds a') <> []).
+Proof.
+  induction rs as [|r t IH]; intros a a' H Hk; cbn [results_loop] in H.
+  - inversion H; subst. exact Hk.
+  - destruct (one_result P step tev dc now a r) as [a1|] eqn:O; [|discriminate].
+    apply (IH _ _ H). exact (one_result_keep _ _ _ _ _ _ _ _ O Hk).
+Qed.
+
 (* what a step-result tick does to the tick's own step *)
 Theorem process_step_runs_exact P step wid tev rs s now s' cs w :
   Keys_ok s -> process_step P step wid tev rs s now = Ok (s', cs) -> zlookup step (workers s) = Some w ->
@@ -237,7 +260,8 @@ Theorem process_step_runs_exact P step wid tev rs s now s' cs w :
     Forall (eq wid) reruns /\ In wid (wids w) /\
     ((reruns <> [] /\ wids w' = wids w ++ fresh) \/ (reruns = [] /\ wids w' = remove_nat wid (wids w) ++ fresh) \/
      (reruns = [] /\ wids w' = wids w ++ fresh)) /\
-    (forall m, m <> step -> runs_of m cs = []) /\ (length reruns <= length (filter is_addcoll rs))%nat.
+    (forall m, m <> step -> runs_of m cs = []) /\ (length reruns <= length (filter is_addcoll rs))%nat /\
+    (reruns = [] -> wids w' = remove_nat wid (wids w) ++ fresh).
 Proof.
   unfold process_step, Keys_ok. intros ND H L. rewrite L in H.
   destruct (find_ip wid (inprogress w)) as [this|] eqn:F; [|discriminate].
@@ -253,6 +277,7 @@ Proof.
     as [R1 [R2 R3]].
   pose proof (results_loop_ok _ _ _ _ _ _ _ _ _ _ _ Hok0 RL) as [Hw _ _ _].
   pose proof (results_loop_reruns _ _ _ _ _ step _ _ _ RL) as RLen. cbn [k_cmds runs_of length plus] in RLen.
+  pose proof (results_loop_keep _ _ _ _ _ _ _ _ RL (fun X : false = true => match Bool.diff_false_true X with end)) as Keep.
   set (reruns := runs_of step (k_cmds a)) in *.
   assert (In wid (wids w)) as Fin' by exact Fin.
   assert (forall fresh, wids (k_w a) ++ fresh = wids w ++ fresh) as HwF by (intro; rewrite Hw; reflexivity).
@@ -261,7 +286,7 @@ Proof.
     destruct (existsb is_exit (k_cmds a)).
     + inversion H; subst; clear H. exists (k_w a), reruns, []. unfold put_w; cbn [workers with_workers].
       rewrite zlookup_zupdate_eq, !app_nil_r.
-      split; [reflexivity|]. split; [reflexivity|]. split; [exact R2|]. split; [exact Fin'|]. split; [|split; [exact R1|exact RLen]].
+      split; [reflexivity|]. split; [reflexivity|]. split; [exact R2|]. split; [exact Fin'|]. split; [|split; [exact R1|split; [exact RLen|intros E0; exfalso; exact (Keep eq_refl E0)]]].
       destruct reruns eqn:E; [right; right; split; [reflexivity|exact Hw]|left; split; [discriminate|exact Hw]].
     + destruct (drain _ _ _ _) as [[w3 c3]|] eqn:D; [|discriminate].
       inversion H; subst; clear H. destruct (drain_runs_exact _ _ _ _ _ _ D) as [E3 O3].
@@ -269,7 +294,7 @@ Proof.
       rewrite zlookup_zupdate_eq, runs_of_app.
       split; [reflexivity|]. split; [reflexivity|]. split; [exact R2|]. split; [exact Fin'|]. split.
       * rewrite Hw in E3. destruct reruns eqn:E; [right; right; split; [reflexivity|exact E3]|left; split; [discriminate|exact E3]].
-      * split; [|exact RLen]. intros m Hm. rewrite runs_of_app, (R1 m Hm), (O3 m Hm). reflexivity.
+      * split; [|split; [exact RLen|intros E0; exfalso; exact (Keep eq_refl E0)]]. intros m Hm. rewrite runs_of_app, (R1 m Hm), (O3 m Hm). reflexivity.
   - (* slot released *)
     assert (reruns = []) as Rn.
     { destruct reruns eqn:E; [reflexivity|]. assert (false = true) by (apply R3; discriminate). discriminate. }
@@ -281,14 +306,14 @@ Proof.
       rewrite zlookup_zupdate_eq. cbn [runs_of app]. fold reruns. rewrite Rn, !app_nil_r.
       split; [reflexivity|]. split; [reflexivity|]. split; [constructor|]. split; [exact Fin'|]. split.
       * right. left. split; [reflexivity|exact Hrm].
-      * split; [|cbn; lia]. intros m Hm. cbn [runs_of]. apply R1. exact Hm.
+      * split; [|split; [cbn; lia|intros _; exact Hrm]]. intros m Hm. cbn [runs_of]. apply R1. exact Hm.
     + destruct (drain _ _ _ _) as [[w3 c3]|] eqn:D; [|discriminate].
       inversion H; subst; clear H. destruct (drain_runs_exact _ _ _ _ _ _ D) as [E3 O3].
       exists w3, [], (runs_of step c3). unfold put_w; cbn [workers with_workers].
       rewrite zlookup_zupdate_eq. cbn [runs_of app]. rewrite runs_of_app. fold reruns. rewrite Rn. cbn [app].
       split; [reflexivity|]. split; [reflexivity|]. split; [constructor|]. split; [exact Fin'|]. split.
       * right. left. split; [reflexivity|]. rewrite E3, Hrm. reflexivity.
-      * split; [|cbn; lia]. intros m Hm. cbn [runs_of]. rewrite runs_of_app, (R1 m Hm), (O3 m Hm). reflexivity.
+      * split; [|split; [cbn; lia|intros _; rewrite E3, Hrm; reflexivity]]. intros m Hm. cbn [runs_of]. rewrite runs_of_app, (R1 m Hm), (O3 m Hm). reflexivity.
 Qed.
 
 (* ---------- every tick, every step ---------- *)
@@ -360,17 +385,22 @@ Definition runs_shape (t : tick) (n : Z) (w : wstate) (ws' : list (Z * wstate)) 
     zlookup n ws' = Some w' /\ runs_of n cs = reruns ++ fresh /\
     (forall k, In k reruns -> own_slot t n k /\ In k (wids w) /\ wids w' = wids w ++ fresh) /\
     (wids w' = wids w ++ fresh \/ exists k, own_slot t n k /\ reruns = [] /\ wids w' = remove_nat k (wids w) ++ fresh) /\
-    (length reruns <= match t with TStep _ _ _ rs => length (filter is_addcoll rs) | _ => 0 end)%nat.
+    (length reruns <= match t with TStep _ _ _ rs => length (filter is_addcoll rs) | _ => 0 end)%nat /\
+    (forall k, own_slot t n k -> reruns = [] -> In k (wids w) /\ wids w' = remove_nat k (wids w) ++ fresh) /\
+    (reruns <> [] -> exists k, own_slot t n k).
 
 Lemma shape_fresh t n w ws' cs w' :
+  (forall k, ~ own_slot t n k) ->
   zlookup n ws' = Some w' -> wids w' = wids w ++ runs_of n cs -> runs_shape t n w ws' cs.
 Proof.
-  intros L' E. exists w', [], (runs_of n cs). split; [exact L'|]. split; [reflexivity|]. split; [intros k []|]. split; [left; exact E|cbn; lia].
+  intros No L' E. exists w', [], (runs_of n cs). split; [exact L'|]. split; [reflexivity|]. split; [intros k []|].
+  split; [left; exact E|]. split; [cbn; lia|]. split; [intros k Ho; destruct (No k Ho)|intros X; destruct (X eq_refl)].
 Qed.
 
 Lemma shape_none t n w ws' cs :
+  (forall k, ~ own_slot t n k) ->
   zlookup n ws' = Some w -> runs_of n cs = [] -> runs_shape t n w ws' cs.
-Proof. intros L' E. apply (shape_fresh t n w ws' cs w L'). rewrite E, app_nil_r. reflexivity. Qed.
+Proof. intros No L' E. apply (shape_fresh t n w ws' cs w No L'). rewrite E, app_nil_r. reflexivity. Qed.
 
 Theorem reduce_runs_shape P t s now s' cs n w :
   Keys_ok s -> Inv_state s -> reduce P t s now = Ok (s', cs) -> zlookup n (workers s) = Some w ->
@@ -380,38 +410,47 @@ Proof.
   assert (forall (c0 : list command) (b : bool) m, runs_of m (if b then c0 ++ [CSchedIdle] else c0) = runs_of m c0) as Sn.
   { intros c0 b m. destruct b; [|reflexivity]. rewrite runs_of_app. cbn. apply app_nil_r. }
   destruct t.
-  - destruct (process_add _ _ _ _) as [[s1 c1]|] eqn:E; [|discriminate]. inversion H; subst; clear H.
+  - assert (forall k, ~ own_slot (TAdd a target) n k) as No by (intros k [e0 [rs0 X]]; discriminate X).
+    destruct (process_add _ _ _ _) as [[s1 c1]|] eqn:E; [|discriminate]. inversion H; subst; clear H.
     destruct (Forall2_runs_lookup _ _ _ _ _ (process_add_runs_exact _ _ _ _ _ _ ND E) L) as [w' [L' R]].
-    apply (shape_fresh _ _ _ _ _ w' L'). rewrite Sn. exact R.
+    apply (shape_fresh _ _ _ _ _ w' No L'). rewrite Sn. exact R.
   - destruct (process_step _ _ _ _ _ _ _) as [[s1 c1]|] eqn:E; [|discriminate]. inversion H; subst; clear H.
     destruct (Z.eq_dec n step) as [->|Hne].
-    + destruct (process_step_runs_exact _ _ _ _ _ _ _ _ _ _ ND E L) as [w' [reruns [fresh [L' [R [Fa [Fin [Sh [_ RLen]]]]]]]]].
-      exists w', reruns, fresh. rewrite Sn. split; [exact L'|]. split; [exact R|]. split; [|split; [|exact RLen]].
+    + destruct (process_step_runs_exact _ _ _ _ _ _ _ _ _ _ ND E L) as [w' [reruns [fresh [L' [R [Fa [Fin [Sh [_ [RLen Rem]]]]]]]]]].
+      exists w', reruns, fresh. rewrite Sn. split; [exact L'|]. split; [exact R|]. split; [|split; [|split; [exact RLen|split]]].
       * intros k Hk. rewrite Forall_forall in Fa. rewrite <- (Fa k Hk).
         split; [exists e, rs; reflexivity|]. split; [exact Fin|].
         destruct Sh as [[_ W]|[[Rn _]|[Rn _]]]; [exact W|subst; destruct Hk|subst; destruct Hk].
       * destruct Sh as [[_ W]|[[Rn W]|[_ W]]]; [left; exact W| |left; exact W].
         right. exists wid. split; [exists e, rs; reflexivity|]. split; assumption.
-    + destruct (process_step_other_steps _ _ _ _ _ _ _ _ _ _ _ ND Hi E Hne L) as [w' [L' W]].
+      * intros k [e0 [rs0 X]] Rn. assert (k = wid) as -> by (inversion X; reflexivity). split; [exact Fin|exact (Rem Rn)].
+      * intros _. exists wid, e, rs. reflexivity.
+    + assert (forall k, ~ own_slot (TStep step wid e rs) n k) as No by (intros k [e0 [rs0 X]]; inversion X; subst; contradiction).
+      destruct (process_step_other_steps _ _ _ _ _ _ _ _ _ _ _ ND Hi E Hne L) as [w' [L' W]].
       destruct (zlookup step (workers s)) as [w0|] eqn:L0.
       * destruct (process_step_runs_exact _ _ _ _ _ _ _ _ _ _ ND E L0) as [_ [_ [_ [_ [_ [_ [_ [_ [Oth _]]]]]]]]].
-        apply (shape_fresh _ _ _ _ _ w' L'). rewrite Sn, (Oth n Hne), app_nil_r. exact W.
+        apply (shape_fresh _ _ _ _ _ w' No L'). rewrite Sn, (Oth n Hne), app_nil_r. exact W.
       * unfold process_step in E. rewrite L0 in E. discriminate.
-  - inversion H; subst; clear H. apply shape_none; [exact L|repeat match goal with |- context [if ?b then _ else _] => destruct b end; reflexivity].
-  - inversion H; subst; clear H. apply shape_none; [exact L|repeat match goal with |- context [if ?b then _ else _] => destruct b end; reflexivity].
-  - inversion H; subst; clear H. apply shape_none; [exact L|repeat match goal with |- context [if ?b then _ else _] => destruct b end; reflexivity].
-  - destruct (process_waiter_timeout _ _ _ _) as [[s1 c1]|] eqn:E; [|discriminate]. inversion H; subst; clear H.
+  - assert (forall k, ~ own_slot TCancel n k) as No by (intros k [e0 [rs0 X]]; discriminate X).
+    inversion H; subst; clear H. apply (shape_none _ _ _ _ _ No); [exact L|repeat match goal with |- context [if ?b then _ else _] => destruct b end; reflexivity].
+  - assert (forall k, ~ own_slot (TPublish e) n k) as No by (intros k [e0 [rs0 X]]; discriminate X).
+    inversion H; subst; clear H. apply (shape_none _ _ _ _ _ No); [exact L|repeat match goal with |- context [if ?b then _ else _] => destruct b end; reflexivity].
+  - assert (forall k, ~ own_slot (TTimeout t) n k) as No by (intros k [e0 [rs0 X]]; discriminate X).
+    inversion H; subst; clear H. apply (shape_none _ _ _ _ _ No); [exact L|repeat match goal with |- context [if ?b then _ else _] => destruct b end; reflexivity].
+  - assert (forall k, ~ own_slot (TWaiterTimeout step wid) n k) as No by (intros k [e0 [rs0 X]]; discriminate X).
+    destruct (process_waiter_timeout _ _ _ _) as [[s1 c1]|] eqn:E; [|discriminate]. inversion H; subst; clear H.
     unfold process_waiter_timeout in E.
-    destruct (zlookup step (workers s)) as [w0|] eqn:L0; [|inversion E; subst; apply shape_none; [exact L|rewrite Sn; reflexivity]].
-    destruct (find_waiter_idx _ _ _); [|inversion E; subst; apply shape_none; [exact L|rewrite Sn; reflexivity]].
-    destruct (nth_error _ _) as [wt|]; [|inversion E; subst; apply shape_none; [exact L|rewrite Sn; reflexivity]].
-    destruct (w_resolved wt); [inversion E; subst; apply shape_none; [exact L|rewrite Sn; reflexivity]|].
+    destruct (zlookup step (workers s)) as [w0|] eqn:L0; [|inversion E; subst; apply (shape_none _ _ _ _ _ No); [exact L|rewrite Sn; reflexivity]].
+    destruct (find_waiter_idx _ _ _); [|inversion E; subst; apply (shape_none _ _ _ _ _ No); [exact L|rewrite Sn; reflexivity]].
+    destruct (nth_error _ _) as [wt|]; [|inversion E; subst; apply (shape_none _ _ _ _ _ No); [exact L|rewrite Sn; reflexivity]].
+    destruct (w_resolved wt); [inversion E; subst; apply (shape_none _ _ _ _ _ No); [exact L|rewrite Sn; reflexivity]|].
     destruct (add_or_enqueue _ _ _ _) as [[w2 c2]|] eqn:A; [|discriminate]. inversion E; subst; clear E.
     destruct (aoe_runs_exact _ _ _ _ _ _ A) as [E1 O1].
     unfold put_w; cbn [workers with_workers].
     destruct (Z.eq_dec n step) as [->|Hne].
-    + rewrite L0 in L. inversion L; subst. apply (shape_fresh _ _ _ _ _ w2); [apply zlookup_zupdate_eq|rewrite Sn; exact E1].
-    + apply shape_none; [rewrite zlookup_zupdate_neq by exact Hne; exact L|rewrite Sn; apply O1; exact Hne].
-  - inversion H; subst; clear H. apply shape_none; [exact L|destruct (check_idle s'); reflexivity].
-  - inversion H; subst; clear H. apply shape_none; [exact L|reflexivity].
+    + rewrite L0 in L. inversion L; subst. apply (shape_fresh _ _ _ _ _ w2 No); [apply zlookup_zupdate_eq|rewrite Sn; exact E1].
+    + apply (shape_none _ _ _ _ _ No); [rewrite zlookup_zupdate_neq by exact Hne; exact L|rewrite Sn; apply O1; exact Hne].
+  - assert (forall k, ~ own_slot TIdleCheck n k) as No by (intros k [e0 [rs0 X]]; discriminate X).
+    inversion H; subst; clear H. apply (shape_none _ _ _ _ _ No); [exact L|destruct (check_idle s'); reflexivity].
+  - inversion H; subst; clear H. apply shape_none; [intros k [e0 [rs0 X]]; discriminate X|exact L|reflexivity].
 Qed.
